@@ -133,6 +133,7 @@ func factsC19(r *Repo) []Fact {
 		out = append(out, unknownFact("closesNonDataValues", "Bool", "false", "compose/graph_manager.go", "updateValues not found"))
 	}
 	out = append(out, factC19MissingDps(cp))
+	out = append(out, factsC19Callbacks(r)...)
 	out = append(out, factsC19Merge(r)...)
 	return out
 }
@@ -326,6 +327,55 @@ func factsC19Merge(r *Repo) []Fact {
 		out = append(out, Fact{Name: "mergeRecvDrop", Type: "String", Value: leanStr(drop), Where: whereR})
 	}
 	return out
+}
+
+// callback copies (internal/callbacks/inject.go OnWithStreamHandle): the number of copies made
+// (`cpy(<expr>)`) and the loop that hands them out. The loop must be a range whose body is the
+// single statement `ctx = handle(ctx, <value>, inOuts[<key>])`: every listed handler gets the
+// copy at its own index; any other body (a condition, a continue, ...) renders "?".
+func factsC19Callbacks(r *Repo) []Fact {
+	ip := r.Pkg("internal/callbacks")
+	whereC := "internal/callbacks/inject.go OnWithStreamHandle: inOuts := cpy(<expr>)"
+	whereL := "internal/callbacks/inject.go OnWithStreamHandle: for K, V := range handlers { ctx = handle(ctx, V, inOuts[K]) }"
+	fd, _ := ip.Func("", "OnWithStreamHandle")
+	if fd == nil || fd.Body == nil {
+		return []Fact{unknownFact("cbCopyCountExpr", "String", "\"\"", whereC, "OnWithStreamHandle not found"),
+			unknownFact("cbHandLoop", "String", "\"\"", whereL, "OnWithStreamHandle not found")}
+	}
+	count, loop, nCpy, nRange := "?", "?", 0, 0
+	for _, st := range fd.Body.List {
+		switch x := st.(type) {
+		case *ast.AssignStmt:
+			if len(x.Rhs) == 1 {
+				if c, ok := x.Rhs[0].(*ast.CallExpr); ok && exprString(c.Fun) == "cpy" && len(c.Args) == 1 {
+					nCpy++
+					count = exprString(c.Args[0])
+				}
+			}
+		case *ast.RangeStmt:
+			nRange++
+			ren := map[string]string{}
+			if id, ok := x.Key.(*ast.Ident); ok && id.Name != "_" {
+				ren[id.Name] = "K"
+			}
+			if id, ok := x.Value.(*ast.Ident); ok && id.Name != "_" {
+				ren[id.Name] = "V"
+			}
+			if len(x.Body.List) == 1 {
+				if as, ok := x.Body.List[0].(*ast.AssignStmt); ok && len(as.Lhs) == 1 && len(as.Rhs) == 1 {
+					loop = "range " + exprString(x.X) + ": " + c19Renamed(as.Lhs[0], ren) + as.Tok.String() + c19Renamed(as.Rhs[0], ren)
+				}
+			}
+		}
+	}
+	if nCpy != 1 {
+		count = "?"
+	}
+	if nRange != 1 {
+		loop = "?"
+	}
+	return []Fact{{Name: "cbCopyCountExpr", Type: "String", Value: leanStr(count), Where: whereC},
+		{Name: "cbHandLoop", Type: "String", Value: leanStr(loop), Where: whereL}}
 }
 
 // c19Renamed renders an expression like exprString, with the identifiers in ren replaced.
